@@ -37,7 +37,10 @@ func init() {
 		mutation{"memory-append-silent", "kv/memory/prefix.go", "	if !v.children.Add(string(child)) {\n		return chord.ErrKVPrefixConflict\n	}\n", "	v.children.Add(string(child))\n", "contract"},
 		mutation{"aof-read-not-delegated", "kv/aof/read_only.go", "	return d.memKv.PrefixContains(ctx, prefix, child)", "	return d.memKv.PrefixContains(ctx, child, prefix)", "aof-delegation"},
 	)
+	mutExtra["list-scan-target-hoisted-fatal-errors"] = [2]string{"			for prefixRows.Next() {", "			var child []byte\n			for prefixRows.Next() {"}
 	addSelfTests("C17",
+		mutation{"list-scan-target-hoisted-fatal-errors", "kv/sqlite3/provider.go", "				var child []byte\n				if err := prefixRows.Scan(&child); err != nil {\n					prefixRows.Close()", "				if err := prefixRows.Scan(&child); err != nil {\n					prefixRows.Close()", "!export-fresh"},
+		mutation{"export-scan-targets-hoisted", "kv/sqlite3/provider.go", "		for i, key := range keys {\n			var (\n				simpleValue []byte\n				prefix      [][]byte\n				leaseToken  int64\n			)\n", "		var (\n			simpleValue []byte\n			prefix      [][]byte\n			leaseToken  int64\n		)\n		for i, key := range keys {\n			prefix = nil\n", "export-fresh"},
 		mutation{"sqlite-norm-closed-low", "kv/sqlite3/queries.go", "WHERE (`hash` > ? AND `hash` < ?) OR `hash` = ? ORDER BY", "WHERE (`hash` >= ? AND `hash` < ?) OR `hash` = ? ORDER BY", "sql-range"},
 		mutation{"sqlite-choice-geq", "kv/sqlite3/provider.go", "	if high > low {\n		stmt = s.stmts.rangeKeysNorm", "	if high >= low {\n		stmt = s.stmts.rangeKeysNorm", "sql-range"},
 		mutation{"sqlite-args-swapped", "kv/sqlite3/provider.go", "	args = []any{lowI, highI, highI}", "	args = []any{lowI, highI, lowI}", "sql-range"},
@@ -47,6 +50,7 @@ func init() {
 		mutation{"import-unchecked-length", "kv/sqlite3/provider.go", "	if len(keys) != len(values) {\n		return fmt.Errorf(\"keys and values length mismatch: %d != %d\", len(keys), len(values))\n	}\n", "	_ = fmt.Errorf\n", "import-length"},
 	)
 	addSelfTests("C18",
+		mutation{"acquire-reloads-before-cas", "kv/memory/lease.go", "	next := uint64(ref.Add(ttl).UnixNano())\n	if !v.lease.CompareAndSwap(curr, next) {\n		return 0, chord.ErrKVLeaseConflict\n	}\n	return next, nil", "	next := uint64(ref.Add(ttl).UnixNano())\n	if curr != 0 {\n		curr = v.lease.Load()\n	}\n	if !v.lease.CompareAndSwap(curr, next) {\n		return 0, chord.ErrKVLeaseConflict\n	}\n	return next, nil", "memory-cas"},
 		mutation{"put-blind-store", "kv/memory/simple.go", "	curr := v.simple.Load()\n	if !v.simple.CompareAndSwap(curr, &value) {\n		return chord.ErrKVSimpleConflict\n	}\n	return nil\n}\n\nfunc (m *MemoryKV) Get", "	v.simple.Store(&value)\n	_ = chord.ErrKVSimpleConflict\n	return nil\n}\n\nfunc (m *MemoryKV) Get", "memory-cas"},
 		mutation{"aof-direct-write", "kv/aof/mutation.go", "func (d *DiskKV) RemoveKeys(ctx context.Context, keys [][]byte) error {\n	d.mutationHandler(func(mut *proto.Mutation) {\n		mut.Type = proto.MutationType_REMOVE_KEYS\n		mut.Keys = keys\n	})\n	return nil", "func (d *DiskKV) RemoveKeys(ctx context.Context, keys [][]byte) error {\n	d.mutationHandler(func(mut *proto.Mutation) {\n		mut.Type = proto.MutationType_REMOVE_KEYS\n		mut.Keys = keys\n	})\n	return d.memKv.RemoveKeys(ctx, keys)", "aof-single-writer"},
 		mutation{"sqlite-write-outside-tx", "kv/sqlite3/simple.go", "	return withWriteTx(ctx, s.writer, func(tx *sql.Tx) error {\n		_, err := tx.StmtContext(ctx, s.stmts.simpleDel).Exec(key)\n		if err != nil {\n			return err\n		}\n		return s.updateKeyTracker(ctx, tx, key, 0, SimpleFlag)\n	})", "	if _, err := s.stmts.simpleDel.ExecContext(ctx, key); err != nil {\n		return err\n	}\n	return withWriteTx(ctx, s.writer, func(tx *sql.Tx) error {\n		return s.updateKeyTracker(ctx, tx, key, 0, SimpleFlag)\n	})", "sqlite-writer-tx"},
@@ -360,7 +364,102 @@ func pureDelegation(fn *Fn, target, method string) (bool, string) {
 
 // ---------------------------------------------------------------------------------------
 
+// freshScanTargets: database/sql leaves a Scan destination untouched when the query has no
+// row (sql.ErrNoRows), and the export/list loops tolerate that error for "this key has no
+// such data". A destination that outlives one loop iteration then still holds the previous
+// key's value. Every &v handed to Scan inside a loop is declared inside that loop's body.
+func freshScanTargets(c *Ctx, rule string) {
+	n, nsite := 0, 0
+	for _, fn := range c.AllFuncs("kv/sqlite3") {
+		var stack []ast.Node
+		ast.Inspect(fn.Body, func(m ast.Node) bool {
+			if m == nil {
+				stack = stack[:len(stack)-1]
+				return true
+			}
+			stack = append(stack, m)
+			call, ok := m.(*ast.CallExpr)
+			if !ok {
+				return true
+			}
+			se, ok := call.Fun.(*ast.SelectorExpr)
+			if !ok || se.Sel.Name != "Scan" {
+				return true
+			}
+			g := fn.enclosing(call)
+			if k := g.CallKey(call); !strings.HasPrefix(k, "database/sql.") {
+				return true
+			}
+			// innermost enclosing loop within the same function literal
+			var body *ast.BlockStmt
+			for i := len(stack) - 2; i >= 0 && body == nil; i-- {
+				switch l := stack[i].(type) {
+				case *ast.ForStmt:
+					body = l.Body
+				case *ast.RangeStmt:
+					body = l.Body
+				case *ast.FuncLit:
+					i = -1
+				}
+			}
+			if body == nil {
+				return true
+			}
+			// is a failed Scan tolerated? (its error is compared with sql.ErrNoRows, or not
+			// kept at all); a Scan whose every error ends the function always overwrites
+			// its destination on the paths that go on
+			var errVar *types.Var
+			for i := len(stack) - 2; i >= 0 && errVar == nil; i-- {
+				if as, ok := stack[i].(*ast.AssignStmt); ok && len(as.Rhs) == 1 && containsNode(as.Rhs[0], call) && len(as.Lhs) == 1 {
+					errVar = g.varOf(as.Lhs[0])
+					break
+				}
+				if _, ok := stack[i].(ast.Stmt); ok {
+					break
+				}
+			}
+			tolerated := errVar == nil
+			if errVar != nil {
+				ast.Inspect(g.Body, func(x ast.Node) bool {
+					switch y := x.(type) {
+					case *ast.BinaryExpr:
+						if (y.Op == token.EQL || y.Op == token.NEQ) && (g.varOf(y.X) == errVar && g.Prov(y.Y) == "global:database/sql.ErrNoRows" || g.varOf(y.Y) == errVar && g.Prov(y.X) == "global:database/sql.ErrNoRows") {
+							tolerated = true
+						}
+					case *ast.CallExpr:
+						if g.IsCall(y, "errors.Is") && len(y.Args) == 2 && g.varOf(y.Args[0]) == errVar && g.Prov(y.Args[1]) == "global:database/sql.ErrNoRows" {
+							tolerated = true
+						}
+					}
+					return true
+				})
+			}
+			nsite++
+			if !tolerated {
+				return true
+			}
+			for _, a := range call.Args {
+				u, ok := ast.Unparen(a).(*ast.UnaryExpr)
+				if !ok || u.Op != token.AND {
+					continue
+				}
+				v := g.varOf(u.X)
+				if v == nil {
+					continue
+				}
+				n++
+				inside := v.Pos() >= body.Pos() && v.Pos() < body.End()
+				c.Ob(rule, strings.TrimPrefix(fn.Name, "kv/sqlite3.")+"#scan-target-"+v.Name()+"-is-fresh-per-iteration", call.Pos(), inside, "the Scan destination "+v.Name()+" is declared inside the loop it is filled in: a query without a row leaves the destination untouched, so a longer-lived variable carries the previous key's value into this one")
+			}
+			return true
+		})
+	}
+	c.Floor("Scan calls inside loops (kv/sqlite3)", nsite, 5)
+	c.Floor("Scan destinations of no-row-tolerant scans inside loops (kv/sqlite3)", n, 2)
+}
+
 func runC17(c *Ctx) {
+	freshScanTargets(c, "export-fresh")
 	between := c.Func("spec/chord", "", "Between")
 	stmts := sqliteStatements(c)
 	rk := c.Func("kv/sqlite3", "SqliteKV", "RangeKeys")
@@ -676,6 +775,13 @@ func runC18(c *Ctx) {
 				base := types.ExprString(se.X)
 				okFrom := strings.HasSuffix(pv, "."+strings.TrimPrefix(fld, "kv/memory.kvValue.")+".Load()") || (strings.HasPrefix(pv, "param#") && fn.Decl.Name.Name == "Release")
 				c.Ob("memory-cas", fmt.Sprintf("%s.CompareAndSwap<-%s", fld, fn.Name), call.Pos(), okFrom, fmt.Sprintf("the CAS on %s starts from the value loaded earlier in the same function (or from the token presented to Release); found %s", base, pv))
+				// the expected value is ONE snapshot: the value the preceding checks (expiry,
+				// ownership, presence) were made on. A variable that is loaded again after
+				// the checks makes the CAS succeed against a state nobody checked.
+				if v := g.varOf(call.Args[0]); v != nil && !strings.HasPrefix(pv, "param#") {
+					nd := len(g.defsOf(v))
+					c.Ob("memory-cas", fmt.Sprintf("%s.CompareAndSwap<-%s#expected-is-a-single-snapshot", fld, fn.Name), call.Pos(), nd == 1, fmt.Sprintf("the variable holding the CAS's expected value is assigned exactly once (the load the checks were made on); it has %d definitions", nd))
+				}
 			default:
 				c.Ob("memory-cas", fmt.Sprintf("%s.%s<-%s", fld, se.Sel.Name, fn.Name), call.Pos(), false, "unexpected atomic operation")
 			}
